@@ -3,6 +3,7 @@ Model driver: one request per line on stdin, one answer per line on stdout.
 `ok <answer>` or `bad-op` (never a default). Core-only so that it links as an executable.
 -/
 import GoSandbox.Model.DriverC18
+import GoSandbox.Model.DriverC09
 
 open GoSandbox
 
@@ -11,6 +12,7 @@ def dispatch (ws : List String) : Option String :=
   | [] => none
   | cmd :: _ =>
     if cmd.startsWith "c18." then Driver.C18.handle ws
+    else if cmd.startsWith "c09." then Driver.C09.handle ws
     else none
 
 partial def loop (hin hout : IO.FS.Stream) : IO Unit := do
